@@ -149,6 +149,8 @@ def followups(kind):
                         continue
                     for path in ("attrs-dict", "attrs-list") + (("set_time",) if kind == "activity" else ()):
                         out.append((i, fa, choice, rep, path))
+                    if choice != "unparsable":
+                        out.append((i, fa, choice, rep, "one-call-two-values:dict-then-list"))
         else:
             for choice in ("same", "different", "unparsable"):
                 for rep in REF_REPRS:
@@ -156,12 +158,39 @@ def followups(kind):
                         continue
                     for path in ("attrs-dict", "attrs-list"):
                         out.append((i, fa, choice, rep, path))
+                    if choice != "unparsable":
+                        out.append((i, fa, choice, rep, "one-call-two-values:dict-then-list"))
     return out
 
 
 def apply_followup(doc, rec, model, fu):
     """returns (expected 'ok'|'refuse'|'invalid', thunk, new model)"""
     i, fa, choice, rep, path = fu
+    if path.startswith("one-call-two-values"):
+        # both values arrive in the same add_attributes invocation
+        uri = PROV_URI + fa
+        if fa in TIME_ATTRS:
+            v1, v2 = time_value(T1, rep), time_value(T2 if choice == "different" else T1, "datetime")
+            o1, o2 = observe.vobs(T1), observe.vobs(T2 if choice == "different" else T1)
+        else:
+            l2 = ("w%d" if choice == "different" else "v%d") % i
+            v1, v2 = ref_value(doc, "v%d" % i, rep), ref_value(doc, l2, "qname")
+            o1, o2 = ("qn", A + "v%d" % i), ("qn", A + l2)
+        new_model = dict(model)
+        if uri in model and model[uri] != o1:
+            expected = "refuse"
+        elif o1 != o2:
+            expected = "refuse-partial"  # the first value may have been stored before the refusal
+            new_model[uri] = o1
+        else:
+            expected = "ok"
+            new_model[uri] = o1
+        pairs = [(PROV[fa], v1), ("prov:" + fa, v2)]
+        if path.endswith("dict-then-list"):
+            thunk = lambda: rec.add_attributes(pairs)
+        else:
+            thunk = lambda: rec.add_attributes(tuple(reversed(pairs))) if choice != "different" else rec.add_attributes(pairs)
+        return expected, thunk, new_model
     uri = PROV_URI + fa
     if fa in TIME_ATTRS:
         if choice == "same":
@@ -278,6 +307,17 @@ class C05(spec.Spec):
                                   {"got": repr(after), "want": repr(model_obs(PROV_URI + tname, ident, model))}, hh)
                     return
                 out.outcomes["accepted-%s" % fu[2]] += 1
+            elif expected == "refuse-partial":
+                if raised is None:
+                    out.violation("second-value-not-refused", "one-call:%s" % fu[3], {"record": repr(after)}, hh)
+                    return
+                # the record holds either what it held before or additionally the first of the two values
+                if after != before and after != model_obs(PROV_URI + tname, ident, new_model):
+                    out.violation("refusal-changed-record", "one-call:%s" % fu[3], {"after": repr(after)}, hh)
+                    return
+                if after != before:
+                    model = new_model
+                out.outcomes["refused-second-of-one-call"] += 1
             elif expected == "refuse":
                 if raised is None:
                     out.violation("second-value-not-refused", "%s:%s" % (fu[3], fu[4]), {"record": repr(after)}, hh)
@@ -306,6 +346,58 @@ class C05(spec.Spec):
         out.conform += 1
         if len(out.samples) < 1 and seq:
             out.samples.append({"create": list(map(str, item)), "then": [list(map(str, f)) for f in seq]})
+
+    # -- a formal attribute given twice at creation --------------------------------------
+    def creation_conflict_case(self, item, out):
+        kind, fidx, same, via = item
+        hh = ("c05-conflict", kind, fidx, same, via)
+        out.evaluations += 1
+        tname, formals = KINDS[kind]
+        fa = formals[fidx]
+        if kind == "membership" and fa == "entity" and not same:
+            out.filters["not-claimed:several-prov:entity-values-in-one-membership-call"] += 1
+            return
+        doc = ProvDocument()
+        doc.add_namespace("ex", A)
+        vals = []
+        for i, f in enumerate(formals):
+            vals.append(T1 if f in TIME_ATTRS else ref_value(doc, "v%d" % i, "qname"))
+        if fa in TIME_ATTRS:
+            other = T1 if same else T2
+        else:
+            other = ref_value(doc, ("v%d" if same else "w%d") % fidx, "string")
+        ident = "ex:r" if kind in ("entity", "agent", "activity") or kind not in ("specialization", "alternate", "mention", "membership") else None
+        try:
+            if via == "factory-other_attributes" and kind not in ("specialization", "alternate", "mention", "membership"):
+                if kind == "activity":
+                    rec = doc.activity(ident, *vals, other_attributes=[(PROV[fa], other)])
+                else:
+                    rec = getattr(doc, kind)(*vals, identifier=ident, other_attributes=[(PROV[fa], other)])
+            else:
+                rec = doc.new_record(PROV[tname], ident, [(PROV[f], v) for f, v in zip(formals, vals)] + [("prov:" + fa, other)])
+            raised = None
+        except ProvException as e:
+            raised = e
+        except Exception as e:
+            out.violation("unexpected-exception", "creation:%s" % type(e).__name__, {"error": repr(e)}, hh)
+            return
+        out.transitions += 1
+        if same:
+            if raised is not None:
+                out.violation("spurious-refusal", "creation-same-value-twice", {"error": str(raised)}, hh)
+                return
+            probs = normal_form_problems(rec)
+            if probs:
+                out.violation("not-normal-form", "creation-same-value-twice:%s" % probs[0], {"problems": probs}, hh)
+                return
+        else:
+            if raised is None:
+                out.violation("second-value-not-refused", "creation:%s" % via,
+                              {"record": repr(observe.robs(rec)), "problems": normal_form_problems(rec)}, hh)
+                return
+        out.outcomes["creation-twice-%s" % ("same" if same else "refused")] += 1
+        out.nontrivial += 1
+        out.conform += 1
 
     # -- literal vs native ------------------------------------------------------------
     def literal_case(self, item, out):
@@ -410,6 +502,11 @@ def main(tier, seed):
     items = record_items(tier)
     out = explore.pmap(__name__, tier, {}, "record_case", items, chunk=4)
     out.evaluations -= len(items)
+    conf_items = [(k, i, same, via) for k, (t, fs) in KINDS.items() for i in range(len(fs)) for same in (True, False)
+                  for via in ("factory-other_attributes", "new_record-list")]
+    out3 = explore.pmap(__name__, tier, {}, "creation_conflict_case", conf_items, chunk=20)
+    out3.evaluations -= len(conf_items)
+    out.merge(out3)
     lit_items = [(l, a, p, pre) for l in LITERALS for a in ATTRS for p in LPATHS for pre in ("xsd", "xs")]
     out2 = explore.pmap(__name__, tier, {}, "literal_case", lit_items, chunk=40)
     out2.evaluations -= len(lit_items)
